@@ -6,6 +6,7 @@ code on a gate with symbolic parameters placed on non-ascending qubits, and the 
 is proved by Base/TrigMat.mcheck_phase_sound.  Multi-controlled X: see Model/MCX.v (boolean
 reversible-circuit model, proved for every number of controls) + structural correspondence.
 """
+STATIC = ["Base/TrigMat"]
 import random
 
 import numpy as np
